@@ -6,6 +6,7 @@ import (
 	"fmt"
 	"math/rand"
 	"regexp"
+	"strconv"
 	"time"
 	"verif/harness/internal/j"
 
@@ -178,6 +179,63 @@ func genShadowProgram(r *rand.Rand) []gcs.Op {
 	return prog
 }
 
+// genLruProgram: more resumable sessions than the server remembers (1024, least recently used first out): a session that
+// was started early and never touched again is gone once the 1025th is started; one that was queried in between survives
+// and can still be completed.
+func genLruProgram(r *rand.Rand) []gcs.Op {
+	g := ggen{r: r, names: []string{"lru-a", "lru-b", "lru-fill"}}
+	b := gcsBuckets[0]
+	prog := []gcs.Op{{Ev: "CreateBucket", B: b}}
+	pa, pb := g.payload(40), g.payload(40)
+	for len(pa) < 2 {
+		pa = g.payload(40)
+	}
+	for len(pb) < 2 {
+		pb = g.payload(40)
+	}
+	start := func(n string) int {
+		prog = append(prog, gcs.Op{Ev: "ResumableStart", B: b, N: j.S(n), Decl: "none", Conds: gcs.NoConds()})
+		return len(prog) - 1
+	}
+	put := func(ref, lo, total int, data []byte, tok j.B) {
+		prog = append(prog, gcs.Op{Ev: "ResumablePut", Ref: ref, Lo: lo, Total: total, Data: j.B(data), Md5full: tok, Method: "PUT"})
+	}
+	early := g.pick(3) // fillers started before the two sessions of interest
+	for i := 0; i < early; i++ {
+		start("lru-fill")
+	}
+	sa := start("lru-a")
+	put(sa, 0, -1, pa[:1], md5tok(pa))
+	sb := start("lru-b")
+	put(sb, 0, -1, pb[:1], md5tok(pb))
+	var fill []int
+	for len(prog) < 1+early+4+(1024-2-early) { // exactly 1024 live sessions
+		fill = append(fill, start("lru-fill"))
+	}
+	keep, lose, pk, pl := sa, sb, pa, pb
+	if g.chance(0.5) {
+		keep, lose, pk, pl = sb, sa, pb, pa
+	}
+	if g.chance(0.5) {
+		put(keep, -1, -1, nil, md5tok(pk)) // a status query makes it the most recently used
+	} else {
+		put(keep, 5, -1, pk[1:], md5tok(pk)) // so does a refused chunk (a gap)
+	}
+	for i := 0; i < early+1; i++ { // the early fillers go first, then the untouched session
+		start("lru-fill")
+	}
+	put(lose, 1, len(pl), pl[1:], md5tok(pl)) // forgotten: an error, no object
+	put(keep, 1, len(pk), pk[1:], md5tok(pk)) // still known: completes
+	prog = append(prog, gcs.Op{Ev: "GetMedia", B: b, N: j.S("lru-a"), Form: "api"}, gcs.Op{Ev: "GetMedia", B: b, N: j.S("lru-b"), Form: "api"})
+	// the next start pushes out the oldest filler; the one after it is still there
+	if len(fill) > 1 {
+		start("lru-fill")
+		put(fill[0], -1, -1, nil, md5tok(nil))
+		put(fill[1], -1, -1, nil, md5tok(nil))
+	}
+	return prog
+}
+
 var dataModel = gcsModel{Module: "MC_GcsData",
 	Quick: map[string]string{"MaxDepth": "3", "MaxObjs": "3", "WithRestart": "FALSE"}, Thorough: map[string]string{"MaxDepth": "4", "MaxObjs": "3", "WithRestart": "FALSE"},
 	SampleQ: "40", SampleT: "60", MaxReplayQ: 700,
@@ -206,6 +264,16 @@ func init() {
 		for _, p := range progs {
 			c.AddEval(1)
 			c.Nontrivial(describeGcs(p))
+		}
+		c.gcsValidate("C02", []string{"mem"}, progs, nil)
+		// more pending resumable sessions than the server keeps (1024, least recently used evicted first)
+		progs = nil
+		for i := 0; i < map[bool]int{true: 1, false: 6}[c.Quick()]; i++ {
+			progs = append(progs, genLruProgram(r))
+		}
+		for _, p := range progs {
+			c.AddEval(1)
+			c.Nontrivial("resumable-session eviction: " + strconv.Itoa(len(p)) + " requests")
 		}
 		c.gcsValidate("C02", []string{"mem"}, progs, nil)
 		// names that contain something shaped like an API path: served correctly through the JSON and /download
